@@ -12,6 +12,8 @@ package main
 //   inner_shadow         `var x T` in an inner block re-declaring an outer x
 //                        (MPCL has function-level scoping only)
 //   cast_int_wider_uint  uintM(intN) with M > N (zero-extends)
+//   named_result_zero    a named result read before it is assigned (MPCL does
+//                        not zero-initialise named results: undriven wires)
 
 import (
 	"fmt"
@@ -1282,8 +1284,36 @@ func (g *gen) function(name string, index int, params []Param, results []*Ty, na
 		}
 		g.tag("named_results")
 	}
+	var body []*Stmt
+	if named {
+		if g.opts.defect == "named_result_zero" {
+			g.hit["named_result_zero"] = true
+		} else {
+			// like the shipped named_return*.mpcl programs: every named result is
+			// assigned before anything reads it
+			hidden := g.vars[len(params):]
+			g.vars = g.vars[:len(params)]
+			var pre []*Stmt
+			for i, rn := range f.Named {
+				e := g.expr(results[i], g.opts.maxDepth, false)
+				if e == nil {
+					// aggregate without a source: a fresh zero variable
+					name := g.fresh()
+					pre = append(pre, &Stmt{K: "decl", X: name, T: results[i]})
+					g.declare(name, results[i], true)
+					e = &Expr{K: "var", X: name, T: results[i]}
+				}
+				pre = append(pre, &Stmt{K: "assign", LVs: []*LVal{{X: rn, T: results[i]}}, E: e})
+			}
+			for i := range hidden {
+				hidden[i].assignable = true
+			}
+			g.vars = append(g.vars, hidden...)
+			body = pre
+		}
+	}
 	n := 1 + g.r.Intn(g.opts.maxStmts)
-	body := g.stmts(n, 2, results, false)
+	body = append(body, g.stmts(n, 2, results, false)...)
 	if named {
 		// make sure every named result is assigned at least sometimes
 		for i, rn := range f.Named {
